@@ -57,6 +57,8 @@ def random_ep(rng, v6=None, sport=443, odd=0.3):
     ci, si = ip(), ip()
     while si == ci:
         si = ip()
+    if odd and rng.random() < 0.08:
+        si, sm = ci, cm                                         # both endpoints on one host (loopback capture): only the ports tell the directions apart
     cport = rng.choice([1, 1024, 65535, rng.randrange(1, 65536), rng.randrange(32768, 61000)])
     while cport == sport or cport in (443, 44330):
         cport = rng.randrange(1024, 65536)
